@@ -446,6 +446,8 @@ def run_suite(name, n, r):
     else:
         g = getattr(suites, genname)
     from . import guard
+    if name == "plugin":
+        suites.plugin_env()         # importing OctoPrint is not part of any case's time limit
     cases = []
     for k in range(n):
         try:
